@@ -1,0 +1,40 @@
+//go:build verif
+
+/*
+Copyright (c) Meta Platforms, Inc. and affiliates.
+Licensed under the Apache License, Version 2.0 (the "License");
+you may not use this file except in compliance with the License.
+You may obtain a copy of the License at
+    http://www.apache.org/licenses/LICENSE-2.0
+Unless required by applicable law or agreed to in writing, software
+distributed under the License is distributed on an "AS IS" BASIS,
+WITHOUT WARRANTIES OR CONDITIONS OF ANY KIND, either express or implied.
+See the License for the specific language governing permissions and
+limitations under the License.
+*/
+
+package metrics
+
+import "time"
+
+// SlidingWindowForVerif exposes a sliding window with a caller-chosen sample lifetime (the public
+// path hard-codes 60 s).
+type SlidingWindowForVerif struct{ sw *slidingWindow }
+
+// NewSlidingWindowForVerif creates a sliding window and launches its cleaner.
+func NewSlidingWindowForVerif(lifetime time.Duration) (*SlidingWindowForVerif, error) {
+	sw, err := newSlidingWindow(lifetime)
+	if err != nil {
+		return nil, err
+	}
+	return &SlidingWindowForVerif{sw}, nil
+}
+
+// Add adds a sample.
+func (w *SlidingWindowForVerif) Add(v int64) { w.sw.Add(v) }
+
+// Samples returns the current samples.
+func (w *SlidingWindowForVerif) Samples() []int64 { return w.sw.Samples() }
+
+// Stop stops the cleaner.
+func (w *SlidingWindowForVerif) Stop() { w.sw.stopping <- struct{}{} }
